@@ -41,6 +41,7 @@ type simProc struct {
 	deadlock  bool          // arv-mount never exits
 	unlockAt  time.Time
 	kills     int
+	killTried int // kill commands that reached the VM while it was unresponsive
 	byInc     int
 	obligFrom time.Time // since when the dispatcher owes this process a kill (see afterStep)
 }
@@ -182,6 +183,15 @@ func (vm *simVM) exec(inc *incarnation, cmd string, stdin []byte) (time.Duration
 		return s.lat("ssh-dead-lat", time.Second, 10*time.Second), execRes{err: errSSH}
 	}
 	if !vm.responsive(now) {
+		if strings.Contains(cmd, " --kill ") {
+			// the dispatcher did try to kill: if the VM's fault makes it give up and drain the
+			// worker instead (remoteRunner.Kill's deadline), that is the documented fallback,
+			// not a missing kill
+			f := strings.Fields(cmd)
+			if p := vm.lockHolder(f[len(f)-1]); p != nil {
+				p.killTried++
+			}
+		}
 		s.w.Probe("vm-command-during-unresponsive-window")
 		d := vm.unrespTill.Sub(now)
 		if max := s.lat("ssh-hang", 5*time.Second, 30*time.Second, 120*time.Second); d > max {
